@@ -4,7 +4,8 @@
 set -e
 patch="$(realpath "$1")"; shift
 work="$(mktemp -d /tmp/mutant.XXXXXX)"
-trap 'rm -rf "$work"' EXIT
+# the run regenerates lean/DxModel/Generated/*.lean from the MUTANT: restore the committed tables afterwards
+trap 'rm -rf "$work"; git -C "$(dirname "$0")/.." checkout -q -- lean/DxModel/Generated 2>/dev/null' EXIT
 git -C /repo worktree list >/dev/null
 mkdir -p "$work/repo"
 (cd /repo && git ls-files -z | xargs -0 cp --parents -t "$work/repo")
